@@ -46,13 +46,26 @@ type blk struct {
 	Nonce   uint64 `json:"nonce"`
 	Invalid bool   `json:"invalid,omitempty"` // the chain refuses to verify it, always
 	Flaky   int    `json:"flaky,omitempty"`   // the chain refuses the first Flaky verifications
+	// PCtx, when set, is the P-Chain height of the block's embedded P-Chain
+	// context (proposervm era block): the engine must verify the block with a
+	// context of the same height.
+	PCtx *uint64 `json:"pctx,omitempty"`
 
 	id    ids.ID
 	bytes []byte
 }
 
 func makeBlk(parent ids.ID, height uint64, ts int64, nonce uint64, invalid bool, flaky int) *blk {
+	return makeBlkCtx(parent, height, ts, nonce, invalid, flaky, nil)
+}
+
+// makeBlkCtx additionally embeds a P-Chain context (nil = none).
+func makeBlkCtx(parent ids.ID, height uint64, ts int64, nonce uint64, invalid bool, flaky int, pctx *uint64) *blk {
 	b := &blk{Prnt: parent, Hght: height, Tmstmp: ts, Nonce: nonce, Invalid: invalid, Flaky: flaky}
+	if pctx != nil {
+		v := *pctx
+		b.PCtx = &v
+	}
 	raw, err := json.Marshal(b)
 	if err != nil {
 		panic(err)
@@ -72,12 +85,17 @@ func parseBlk(raw []byte) (*blk, error) {
 	return b, nil
 }
 
-func (b *blk) GetID() ids.ID            { return b.id }
-func (b *blk) GetParent() ids.ID        { return b.Prnt }
-func (b *blk) GetTimestamp() int64      { return b.Tmstmp }
-func (b *blk) GetBytes() []byte         { return b.bytes }
-func (b *blk) GetHeight() uint64        { return b.Hght }
-func (*blk) GetContext() *block.Context { return nil }
+func (b *blk) GetID() ids.ID       { return b.id }
+func (b *blk) GetParent() ids.ID   { return b.Prnt }
+func (b *blk) GetTimestamp() int64 { return b.Tmstmp }
+func (b *blk) GetBytes() []byte    { return b.bytes }
+func (b *blk) GetHeight() uint64   { return b.Hght }
+func (b *blk) GetContext() *block.Context {
+	if b.PCtx == nil {
+		return nil
+	}
+	return &block.Context{PChainHeight: *b.PCtx}
+}
 func (b *blk) String() string {
 	if b == nil {
 		return "blk(nil)"
@@ -282,6 +300,40 @@ type recChain struct {
 	// (on the calling goroutine, no recorder lock held): a synchronisation point
 	// inside the wrapper's progress.
 	onCallback atomic.Pointer[func()]
+
+	// onIndex, when set, runs inside ChainIndex.UpdateLastAccepted as the
+	// wrapper calls it from Accept (on the accepting goroutine): before the
+	// block is written to the index and right after (the latter is the window
+	// of the hook point snow.accept.afterIndex).
+	onIndex atomic.Pointer[func(b *blk, phase string)]
+}
+
+func (c *recChain) setOnIndex(f func(b *blk, phase string)) {
+	if f == nil {
+		c.onIndex.Store(nil)
+		return
+	}
+	c.onIndex.Store(&f)
+}
+
+// probeIndex is the ChainIndex handed to the wrapper: the real chainindex
+// plus an observation window around UpdateLastAccepted. It never alters what
+// the index does or returns.
+type probeIndex struct {
+	snow.ChainIndex[*blk]
+	c *recChain
+}
+
+func (p *probeIndex) UpdateLastAccepted(ctx context.Context, b *blk) error {
+	f := p.c.onIndex.Load()
+	if f != nil {
+		(*f)(b, "before-index")
+	}
+	err := p.ChainIndex.UpdateLastAccepted(ctx, b)
+	if f != nil && err == nil {
+		(*f)(b, "after-index")
+	}
+	return err
 }
 
 func (c *recChain) setOnCallback(f func()) {
@@ -378,11 +430,12 @@ func (c *recChain) Initialize(ctx context.Context, in snow.ChainInput, vm *xvm) 
 		prej(b.id)
 		return nil
 	}})
+	pidx := &probeIndex{ChainIndex: idx, c: c}
 	if !c.ready {
-		return idx, nil, nil, false, nil
+		return pidx, nil, nil, false, nil
 	}
 	o, a := c.materialize(c.genesis, baseState(c.genesis.id), "genesis")
-	return idx, o, a, true, nil
+	return pidx, o, a, true, nil
 }
 
 func (c *recChain) SetConsensusIndex(ci *xindex) { c.ci = ci }
@@ -399,14 +452,18 @@ func (c *recChain) knownOutput(o *outBlk) bool {
 	return ok
 }
 
-func (c *recChain) BuildBlock(_ context.Context, _ *block.Context, parent *outBlk) (*blk, *outBlk, error) {
+func (c *recChain) BuildBlock(_ context.Context, blockCtx *block.Context, parent *outBlk) (*blk, *outBlk, error) {
 	c.mu.Lock()
 	defer c.mu.Unlock()
 	if !c.knownOutput(parent) {
 		return nil, nil, errNoParent
 	}
 	c.buildNonce++
-	b := makeBlk(parent.id, parent.Hght+1, parent.Tmstmp+1, c.buildNonce, false, 0)
+	var pctx *uint64
+	if blockCtx != nil {
+		pctx = &blockCtx.PChainHeight
+	}
+	b := makeBlkCtx(parent.id, parent.Hght+1, parent.Tmstmp+1, c.buildNonce, false, 0, pctx)
 	o := &outBlk{blk: b, State: foldState(parent.State, b.id), Src: "build"}
 	c.outputs[o] = struct{}{}
 	return b, o, nil
@@ -625,6 +682,12 @@ type engine struct {
 	deferred []readObs
 	tipH     uint64
 
+	// scenario knobs (0 = scenario off)
+	ctxP   int // % of new blocks that embed a P-Chain context; > 0 also enables verifications with a mismatching context
+	probeP int // % of accepts during which blocks are looked up by id from inside the accept (see probeAccept)
+	// acceptErrKey, when set, classifies a failing Accept (default engine-call-error)
+	acceptErrKey string
+
 	lag     int // accepts issued - permits granted (only while the gate is closed)
 	maxSeen int
 	stat    map[string]int
@@ -698,9 +761,15 @@ func (e *engine) parseNew(parent *node, invalid bool, flaky int) *node {
 	if parent == nil {
 		b = makeBlk(ids.ID(sha256.Sum256([]byte(fmt.Sprint("orphan", e.nonce)))), 1000+e.nonce, 1, e.nonce, invalid, flaky)
 	} else {
-		b = makeBlk(parent.b.id, parent.b.Hght+1, parent.b.Tmstmp+1, e.nonce, invalid, flaky)
+		var pctx *uint64
+		if e.ctxP > 0 && e.rng.IntN(100) < e.ctxP {
+			v := uint64(e.rng.IntN(4))
+			pctx = &v
+			e.stat["blocks_with_pchain_ctx"]++
+		}
+		b = makeBlkCtx(parent.b.id, parent.b.Hght+1, parent.b.Tmstmp+1, e.nonce, invalid, flaky, pctx)
 	}
-	e.op('p', "parseNew %s parent=%v invalid=%v flaky=%d", b, parent != nil, invalid, flaky)
+	e.op('p', "parseNew %s parent=%v invalid=%v flaky=%d pctx=%s", b, parent != nil, invalid, flaky, ctxStr(b.GetContext()))
 	var h *sblock
 	var err error
 	e.r.Guard("ParseBlock", e.cc.witness(), func() { h, err = e.vm.ParseBlock(e.ctx, b.bytes) })
@@ -750,17 +819,80 @@ func (e *engine) reparse(n *node) {
 	}
 }
 
-// verify calls Verify on one handle of a not yet verified block whose parent
-// is processing or last accepted and interprets the outcome using what the
-// recorder saw.
+func ctxStr(c *block.Context) string {
+	if c == nil {
+		return "none"
+	}
+	return fmt.Sprint(c.PChainHeight)
+}
+
+// rightCtx is the P-Chain context proposervm hands to the wrapper for this
+// block: the one embedded in the block.
+func rightCtx(b *blk) *block.Context { return b.GetContext() }
+
+// wrongCtx is a context that does not match the block's: missing / present
+// the other way round, or a different P-Chain height.
+func (e *engine) wrongCtx(b *blk) (*block.Context, string) {
+	switch {
+	case b.PCtx == nil:
+		return &block.Context{PChainHeight: uint64(e.rng.IntN(4))}, "extra"
+	case e.rng.IntN(2) == 0:
+		return nil, "missing"
+	default:
+		return &block.Context{PChainHeight: *b.PCtx + 1 + uint64(e.rng.IntN(3))}, "height"
+	}
+}
+
+// verify issues a not yet verified block whose parent is processing or last
+// accepted: Verify / VerifyWithContext on one of its handles with the block's
+// P-Chain context. On a ready VM (scenario knob ctxP) the engine sometimes
+// first gets the block through an outer block carrying a different context:
+// that call runs first, and unless the wrapper took the block, the call with
+// the right context follows (at once, or in a later step).
 func (e *engine) verify(n *node) {
 	h := n.handles[e.rng.IntN(len(n.handles))]
-	viaBuilt := h == n.built
+	if e.ready && e.ctxP > 0 && e.rng.IntN(100) < 22 {
+		wrong, kind := e.wrongCtx(n.b)
+		e.stat["verify_ctx_mismatch_calls"]++
+		e.stat["verify_ctx_mismatch_"+kind]++
+		e.verifyWith(n, h, wrong, true)
+		if e.dead || n.st != stKnown {
+			return
+		}
+		if e.rng.IntN(100) < 20 {
+			e.stat["verify_ctx_mismatch_left_pending"]++
+			return
+		}
+		h = n.handles[e.rng.IntN(len(n.handles))]
+		e.stat["verify_ctx_right_after_mismatch"]++
+	}
+	e.verifyWith(n, h, rightCtx(n.b), false)
+}
+
+// verifyWith makes one Verify call and interprets the outcome using what the
+// recorder saw.
+func (e *engine) verifyWith(n *node, h *sblock, pctx *block.Context, mismatch bool) {
 	v0, _ := e.chain.marks()
-	e.op('v', "verify %s built=%v ready=%v", n.b, viaBuilt, e.ready)
+	nv0 := e.chain.notif(e.chain.nVerified, n.b.id)
+	e.op('v', "verify %s built=%v ready=%v ctx=%s mismatch=%v", n.b, h == n.built, e.ready, ctxStr(pctx), mismatch)
 	var err error
-	e.r.Guard("Verify", e.cc.witness(), func() { err = h.Verify(e.ctx) })
-	calls := e.chain.verifySince(v0)
+	e.r.Guard("Verify", e.cc.witness(), func() {
+		if pctx == nil && e.rng.IntN(2) == 0 {
+			err = h.Verify(e.ctx)
+		} else {
+			err = h.VerifyWithContext(e.ctx, pctx)
+		}
+	})
+	e.interpretVerify(n, h, e.chain.verifySince(v0), nv0, err, mismatch, "")
+}
+
+// interpretVerify judges one returned Verify call. calls = the chain's
+// VerifyBlock calls attributable to it, nv0 = verified notifications for the
+// block before the call. overlapKey != "" marks a Verify that overlapped
+// FinishStateSync (C21): a success without any verification by the chain is
+// reported under that key.
+func (e *engine) interpretVerify(n *node, h *sblock, calls []verifyCall, nv0 int, err error, mismatch bool, overlapKey string) {
+	viaBuilt := h == n.built
 	mine := 0
 	okCall := false
 	for _, c := range calls {
@@ -771,6 +903,12 @@ func (e *engine) verify(n *node) {
 			e.cc.violation("verify-foreign-block", "Verify(%s) made the chain verify %s", n.b, short(c.id))
 		}
 	}
+	// The engine's decision is the result of the call: a Verify that failed did
+	// not verify the block, whatever the reason (verified notifications are only
+	// sent from the engine's calls, which are serialised).
+	if nv1 := e.chain.notif(e.chain.nVerified, n.b.id); err != nil && nv1 != nv0 {
+		e.cc.violation("notify-verified-on-failed-verify", "Verify(%s) (mismatching P-Chain context: %v) failed with %q, yet %d verified notification(s) were sent for the block during the call (chain VerifyBlock calls: %d, ok=%v)", n.b, mismatch, err, nv1-nv0, mine, okCall)
+	}
 	switch {
 	case !e.ready:
 		// vacuous verification during dynamic state sync
@@ -780,6 +918,12 @@ func (e *engine) verify(n *node) {
 		}
 		n.st, n.dec, n.vacuous = stProcessing, h, true
 		e.stat["verify_vacuous"]++
+	case mismatch && mine == 0 && err != nil:
+		// refused because of the context, the chain was not asked: the block stays unverified
+		e.stat["verify_ctx_mismatch_refused"]++
+		if viaBuilt {
+			e.stat["verify_ctx_mismatch_refused_built"]++
+		}
 	case mine == 0 && viaBuilt:
 		if err != nil {
 			e.fail("verify-spurious-error", "Verify of locally built %s failed: %v", n.b, err)
@@ -791,6 +935,12 @@ func (e *engine) verify(n *node) {
 	case mine == 0:
 		// the wrapper refused without asking the chain
 		if err == nil {
+			if overlapKey != "" {
+				// keep the history going: the engine now holds the block as processing
+				n.st, n.dec, n.vacuous = stProcessing, h, true
+				e.cc.violation(overlapKey, "Verify(%s) overlapping FinishStateSync returned success on the ready VM, but the block was never verified against the handed-over state (no VerifyBlock call by the chain)", n.b)
+				return
+			}
 			e.fail("verify-without-chain", "Verify(%s) succeeded although the chain never verified it", n.b)
 			return
 		}
@@ -833,7 +983,19 @@ func (e *engine) build() *node {
 	e.op('b', "build on %s", e.pref.b)
 	var h *sblock
 	var err error
-	e.r.Guard("BuildBlock", e.cc.witness(), func() { h, err = e.vm.BuildBlock(e.ctx) })
+	var bctx *block.Context
+	if e.ctxP > 0 && e.rng.IntN(100) < e.ctxP {
+		bctx = &block.Context{PChainHeight: uint64(e.rng.IntN(4))}
+		e.stat["blocks_with_pchain_ctx"]++
+		e.stat["built_with_pchain_ctx"]++
+	}
+	e.r.Guard("BuildBlock", e.cc.witness(), func() {
+		if bctx == nil {
+			h, err = e.vm.BuildBlock(e.ctx)
+		} else {
+			h, err = e.vm.BuildBlockWithContext(e.ctx, bctx)
+		}
+	})
 	if err != nil || h == nil {
 		e.fail("build-failed", "BuildBlock on preference %s (st=%d) failed: %v", e.pref.b, e.pref.st, err)
 		return nil
@@ -858,6 +1020,10 @@ func (e *engine) accept(n *node, sync bool) {
 		}
 	}
 	e.op('a', "accept %s sync=%v lag=%d", n.b, sync, e.lag)
+	if e.ready && e.probeP > 0 && e.rng.IntN(100) < e.probeP {
+		pr := e.armProbe(n)
+		defer e.disarmProbe(pr)
+	}
 	var err error
 	done := kit.Go(func() {
 		e.r.Guard("Accept", e.cc.witness(), func() {
@@ -889,7 +1055,11 @@ func (e *engine) accept(n *node, sync bool) {
 		}
 	}
 	if err != nil {
-		e.fail("engine-call-error", "Accept(%s): %v", n.b, err)
+		key := "engine-call-error"
+		if e.acceptErrKey != "" {
+			key = e.acceptErrKey
+		}
+		e.fail(key, "Accept(%s): %v", n.b, err)
 		return
 	}
 	if e.ready {
@@ -925,6 +1095,110 @@ func (e *engine) accept(n *node, sync bool) {
 		}
 		e.reject(x)
 		queue = append(queue, x.children...)
+	}
+}
+
+// ------------------------------------------------- lookups inside Accept ----
+
+type probeTarget struct {
+	id   ids.ID
+	h    uint64
+	role string // accepting | sibling | descendant
+}
+
+// acceptProbe is the state of one armed accept (written on the accepting
+// goroutine, read by the engine thread after Accept returned).
+type acceptProbe struct {
+	mu      sync.Mutex
+	windows int
+	lookups int
+	byRole  map[string]int
+	blocked bool
+}
+
+// armProbe makes the next Accept(n) stop inside ChainIndex.UpdateLastAccepted
+// - before the block is written to the index and right after (the
+// snow.accept.afterIndex window) - while a reader goroutine looks up by id the
+// block being accepted and the other blocks the engine holds as verified and
+// undecided (its siblings' and its own subtrees). Accept continues when the
+// reader is done; nothing sleeps. A verified, not rejected block is either
+// processing or accepted at every instant, so every lookup must find it.
+func (e *engine) armProbe(n *node) *acceptProbe {
+	targets := []probeTarget{{n.b.id, n.b.Hght, "accepting"}}
+	queue := append([]*node(nil), e.last.children...)
+	for len(queue) > 0 && len(targets) < 8 {
+		x := queue[0]
+		queue = queue[1:]
+		if x.st != stProcessing {
+			continue
+		}
+		if x != n {
+			role := "sibling"
+			if x.parent != e.last {
+				role = "descendant"
+			}
+			targets = append(targets, probeTarget{x.b.id, x.b.Hght, role})
+		}
+		queue = append(queue, x.children...)
+	}
+	pr := &acceptProbe{byRole: map[string]int{}}
+	accepting := n.b
+	vm, ci, ctx := e.vm, e.chain.ci, e.ctx
+	e.chain.setOnIndex(func(b *blk, phase string) {
+		if b.id != accepting.id {
+			return
+		}
+		type miss struct {
+			t   probeTarget
+			api string
+			err string
+		}
+		var misses []miss
+		done := kit.Go(func() {
+			for _, t := range targets {
+				sb, err := vm.GetBlock(ctx, t.id)
+				if err != nil || sb == nil || sb.ID() != t.id || sb.Height() != t.h {
+					misses = append(misses, miss{t, "VM.GetBlock", fmt.Sprintf("(%v, %v)", sb, err)})
+				}
+				in, err := ci.GetBlock(ctx, t.id)
+				if err != nil || in == nil || in.GetID() != t.id {
+					misses = append(misses, miss{t, "ConsensusIndex.GetBlock", fmt.Sprintf("(%v, %v)", in, err)})
+				}
+			}
+		})
+		res, _ := kit.AwaitOrDeadlock(done, []string{"hypersdk/snow.", "hypersdk/snow/"}, deadlockGrace, deadlockWatchdog)
+		pr.mu.Lock()
+		defer pr.mu.Unlock()
+		if res != kit.Returned {
+			pr.blocked = true
+			return
+		}
+		pr.windows++
+		pr.lookups += 2 * len(targets)
+		for _, t := range targets {
+			pr.byRole[t.role]++
+		}
+		for _, m := range misses {
+			e.cc.violation("lookup-id-during-accept", "%s(%s) = %s while Accept(%s) is in progress (%s): %s block h=%d, verified by the engine and not rejected, is not found by id", m.api, short(m.t.id), m.err, accepting, phase, m.t.role, m.t.h)
+		}
+	})
+	return pr
+}
+
+func (e *engine) disarmProbe(pr *acceptProbe) {
+	e.chain.setOnIndex(nil)
+	pr.mu.Lock()
+	defer pr.mu.Unlock()
+	if pr.blocked {
+		e.r.Inconclusive("case %d: a lookup by id issued while Accept was inside the index update did not return", e.cc.wit.Case)
+	}
+	if pr.windows > 0 {
+		e.stat["accept_probes"]++
+	}
+	e.stat["accept_probe_windows"] += pr.windows
+	e.stat["accept_probe_lookups"] += pr.lookups
+	for role, k := range pr.byRole {
+		e.stat["accept_probe_targets_"+role] += k
 	}
 }
 
